@@ -48,3 +48,17 @@ theorem C19_lasso_rows (f : List Tree) (rowIds : List Nat) (hnd : rowIds.Nodup) 
   P16.scatterRows_roundtrip f rowIds hnd rows hr hne
 theorem C19_lasso_empty (h : Hub) (slot : Nat) (rowIds : List Nat) :
     (h.lasso slot rowIds []).get slot = some { ids := [none], subtree := false } := P16.lasso_empty_clears h slot rowIds
+
+/-- **C19 (picking a dendrogram line selects a structure that line was drawn for).** `ls` maps
+line indices to structures (the `structures` list of the collection), `ind` are the picked
+lines; the handler takes the first picked line whose structure has the highest peak. -/
+theorem C19_pick (ls : List Nat) (peak : Nat → Int) (ind : List Nat) (s : Nat)
+    (h : Hub.pickLine ls peak ind = some s) :
+    (∃ i ∈ ind, s = ls.getD i 0) ∧ (∀ i ∈ ind, peak (ls.getD i 0) ≤ peak s) := by
+  have hag : ∀ l, Hub.argmaxFirst l = P29b.argmaxFirst l := by
+    intro l; induction l with
+    | nil => rfl
+    | cons x xs ih => simp [Hub.argmaxFirst, P29b.argmaxFirst, ih]
+  have h' : P29b.pickLine ls peak ind = some s := by
+    simpa [Hub.pickLine, P29b.pickLine, hag] using h
+  exact ⟨P29b.pick_is_picked h', P29b.pick_has_max_peak h'⟩
